@@ -7,6 +7,7 @@ Imports the model and `Std` (hash maps for the data tables) only, so it links as
 import RitiModel.Model.Context
 import RitiModel.Model.Okkhor
 import RitiModel.Model.Bijoy
+import RitiModel.Model.Json
 import Std.Data.HashMap
 open Riti Std
 
@@ -223,6 +224,23 @@ def doOp (st : St) (cid : String) (ev : Event) (label : String) : IO St := do
           | _ => s!"U {b01 c'.ongoing}"
         return { st with pending := some (r, none) }
 
+def hexNibble (c : Char) : Option Nat :=
+  if '0' ≤ c ∧ c ≤ '9' then some (c.toNat - 48)
+  else if 'a' ≤ c ∧ c ≤ 'f' then some (c.toNat - 87)
+  else none
+
+/-- `\\e` = no bytes; otherwise two lower-case hex digits per byte -/
+def parseHex (s : String) : Option (List UInt8) :=
+  if s == "\\e" then some [] else
+  let rec go : List Char → List UInt8 → Option (List UInt8)
+    | [], acc => some acc.reverse
+    | a :: b :: r, acc =>
+      match hexNibble a, hexNibble b with
+      | some x, some y => go r ((x * 16 + y).toUInt8 :: acc)
+      | _, _ => none
+    | _, _ => none
+  go s.toList []
+
 def handle (st : St) (line : String) : IO St := do
   let st := { st with lineNo := st.lineNo + 1 }
   if line.startsWith "> " then
@@ -264,6 +282,29 @@ def handle (st : St) (line : String) : IO St := do
       | .error _ => pure (bump st "bijoy-line-agrees")
       | .ok t => report st s!"MISMATCH case={st.caseName} line={st.lineNo} bijoy model=[{escape t}] crate=[PANIC] for [{s}]")
     return { st with t := { st.t with bijoy := st.t.bijoy.insert (key (unescape s)) none } }
+  | "json-read" :: hx :: verdict :: kv =>
+    -- correspondence for the Lean JSON reader (Model/Json): it must accept exactly what serde_json accepted, with the same map
+    match parseHex hx with
+    | none => report st s!"MISMATCH case={st.caseName} line={st.lineNo} json-read: malformed hex"
+    | some bytes =>
+      let got := (Riti.Json.parseBytes bytes).map Riti.Json.toStore
+      let want : Option (List (List Char × List Char)) := if verdict == "-" then none else some (pairs (kv.filter (· ≠ "")))
+      let ok := match got, want with
+        | none, none => true
+        | some g, some e => g.length == e.length && e.all (fun p => Riti.alookup g p.1 == some p.2)
+        | _, _ => false
+      if ok then return bump st (if got.isSome then "json-reader-accepts-like-serde" else "json-reader-rejects-like-serde")
+      else report st s!"MISMATCH case={st.caseName} line={st.lineNo} json-read: model {if got.isSome then "accepts" else "rejects"} serde_json {if want.isSome then "accepts" else "rejects"} (or the maps differ) bytes={hx}"
+  | ["json-written", hx] =>
+    -- … and for its printer: a file the engine wrote is byte for byte `printBytes` of the entries it contains
+    match parseHex hx with
+    | none => report st s!"MISMATCH case={st.caseName} line={st.lineNo} json-written: malformed hex"
+    | some bytes =>
+      match Riti.Json.parseBytes bytes with
+      | none => report st s!"MISMATCH case={st.caseName} line={st.lineNo} json-written: the model rejects a file the engine wrote bytes={hx}"
+      | some g =>
+        if Riti.Json.printBytes g == bytes then return bump st "json-writer-agrees"
+        else report st s!"MISMATCH case={st.caseName} line={st.lineNo} json-written: the model prints the same entries differently bytes={hx}"
   | ["case", name] =>
     return { st with caseName := name, ctxs := {}, fs := {}, cases := st.cases + 1 }
   | ["fs-sel", "-"] => return { st with fs := { st.fs with sel := .absent } }
